@@ -542,8 +542,8 @@ def _norm_compression_tifffile(
         compression = kw.pop("compress", "ADOBE_DEFLATE")
         assert isinstance(compression, str)
 
-    if compressionargs is None:
-        compressionargs = {}
+    # work on a copy, settings of this call must not leak into the caller's dict
+    compressionargs = {} if compressionargs is None else dict(compressionargs)
 
     remap = {k.upper(): k for k in kw}
 
